@@ -122,7 +122,7 @@ struct WriteOpGuard {
 void exec_case(const Case &c) {
     int nth = 2 + (unsigned)hget(c, 0, 0) % 3;        // 2..4 threads
     int prepop = (unsigned)hget(c, 1, 0) % 4;
-    obs.reserve(c.ops.size() + 8); handles.reserve(c.ops.size() + 8);
+    obs.reserve(c.ops.size() + 48); handles.reserve(c.ops.size() + 48);
     std::vector<std::vector<Op>> per((size_t)nth);
     for (const Op &o : c.ops) { if (o.k < 0 || o.k >= NK) { count_skipped(); continue; } per[(unsigned)o.a % (unsigned)nth].push_back(o); }
 
@@ -147,6 +147,8 @@ void exec_case(const Case &c) {
             note("t%d RET  subscribe -> observer %d", tid, id);
         };
         for (int i = 0; i < prepop; ++i) do_subscribe(decode_key(1 + i, i * 3 + hget(c, 2, 0)), i % nth, i == 0 ? 3 : 1 + i % 2, 0);
+        // "crowd": 36 more observers on ONE key (thresholds inside Subject's containers), only every sixth one yields
+        if ((unsigned)hget(c, 4, 0) % 4 == 3) { label("crowd_on_one_key"); for (int i = 0; i < 36; ++i) do_subscribe(Key{0}, i % nth, i % 6 == 0 ? 1 : 0, 0); }
 
         std::vector<std::thread> th;
         for (int t = 0; t < nth; ++t) {
@@ -264,7 +266,7 @@ void exec_case(const Case &c) {
     }
     vsched::end();
     if (vsched::spurious_wakeups()) label("spurious_wakeup");
-    { std::string w = "W"; for (uint8_t x : vsched::widths()) w += (char)('0' + (x > 9 ? 9 : x)); aux(w); }
+    { std::string w = "W"; for (uint8_t x : vsched::widths()) { if (w.size() > 4000) break; w += (char)('0' + (x > 9 ? 9 : x)); } aux(w); }
     label_n("switches", (long)vsched::switches());
     if (mutating_during_callback) { label("mutating_op_called_during_callback"); nontrivial(); }
 }
